@@ -258,6 +258,11 @@ func genIntProgram(t numType, r *rand.Rand, thorough bool, rot int) (map[string]
 		}
 		fmt.Fprintf(&b, "func sha_%s(a %s, n uint) %s { a %s= n; return a }\n", op.Name, t.Name, t.Name, op.Sym)
 		fmt.Fprintf(&b, "func shs_%s(a %s, n uint) %s { return sideo(a, 1) %s sideu(n, 2) }\n", op.Name, t.Name, t.Name, op.Sym)
+		// nested shifts with two different variable counts (bit-field extraction shapes)
+		for _, op2 := range shiftOps {
+			fmt.Fprintf(&b, "func nsh_%s_%s(a %s, n, m uint) %s { return (a %s n) %s m }\n", op.Name, op2.Name, t.Name, t.Name, op.Sym, op2.Sym)
+			fmt.Fprintf(&b, "func nshc_%s_%s(a %s, n, m uint) %s { return a %s (n %s (m & 3)) }\n", op.Name, op2.Name, t.Name, t.Name, op.Sym, op2.Sym)
+		}
 		for _, n := range []int{1, 31, 32, 40, 64} {
 			fmt.Fprintf(&b, "func shcs_%s_%d(a %s) %s { return sideo(a, 1) %s %d }\n", op.Name, n, t.Name, t.Name, op.Sym, n)
 		}
@@ -440,6 +445,14 @@ func genIntProgram(t numType, r *rand.Rand, thorough bool, rot int) (map[string]
 		fn := "sha_" + op.Name
 		body := "\t\tfor _, a := range grid {\n\t\t\tfor _, c := range counts {\n\t\t\tr := " + fn + "(a, uint(c))\n\t\t\tf.add64(" + digestExpr(t, "r") + ")\n\t\t\tn++\n\t\t\t}\n\t\t}\n"
 		emitDigest(fn, body)
+		for _, op2 := range shiftOps {
+			for _, pre := range []string{"nsh_", "nshc_"} {
+				fn := pre + op.Name + "_" + op2.Name
+				body := "\t\tfor _, a := range grid {\n\t\t\tfor ci, c := range counts {\n\t\t\tif c > 40 {\n\t\t\t\tcontinue\n\t\t\t}\n\t\t\td := counts[(ci*7+3)%len(counts)] % 37\n\t\t\tr := " + fn + "(a, uint(c), uint(d))\n\t\t\tf.add64(" + digestExpr(t, "r") + ")\n\t\t\tn++\n" +
+					sample("n%101 == 0", `"`+fn+`"`, showExpr(t, "a"), "u64s(c)", "u64s(d)", showExpr(t, "r")) + "\t\t\t}\n\t\t}\n"
+				emitDigest(fn, body)
+			}
+		}
 		fn = "shs_" + op.Name
 		body = "\t\tfor _, a := range grid {\n\t\t\tfor _, c := range counts {\n\t\t\tsideOrd = 0\n\t\t\tr := " + fn + "(a, uint(c))\n\t\t\tf.add64(" + digestExpr(t, "r") + ")\n\t\t\tf.add64(sideOrd)\n\t\t\tn++\n" +
 			sample("n%97 == 0", `"`+fn+`"`, showExpr(t, "a"), "u64s(c)", showExpr(t, "r"), "u64s(sideOrd)") + "\t\t\t}\n\t\t}\n"
